@@ -325,6 +325,9 @@ func visitInstr(fr *frame, instr ssa.Instruction) continuation {
 			addr = fr.env[instr].(*value)
 		}
 		*addr = zero(mustDeref(instr.Type()))
+		if fr.i.eng.AllocHook != nil {
+			fr.i.eng.AllocHook(fr.i.ps, fr, instr, addr)
+		}
 
 	case *ssa.MakeSlice:
 		slice := make([]value, asInt64(fr.get(instr.Cap)))
@@ -365,6 +368,15 @@ func visitInstr(fr *frame, instr ssa.Instruction) continuation {
 		}
 		if px == nil {
 			panic(targetPanic{"nil pointer dereference (field)"})
+		}
+		if sv, isSym := (*px).(Sym); isSym {
+			if h := fr.i.eng.Hooks; h != nil && h.Field != nil {
+				if v, ok := h.Field(fr.i.ps, fr, instr, sv, instr.Field); ok {
+					fr.env[instr] = v
+					break
+				}
+			}
+			panic(unsupported{"field of symbolic aggregate"})
 		}
 		fr.env[instr] = &(*px).(structure)[instr.Field]
 
